@@ -83,13 +83,13 @@ func synthetic(c *vkit.Collector, rng *vkit.Rng, budget int) {
 		c.Eval(label, true)
 		fb := fallbackTerm(c, h.bound, rc, label)
 		c.Check("Covering+FastCovering "+label,
-			"(let ti := "+tableTerm(w.I, true)+" in let tc := "+tableTerm(w.C, false)+" in let b := "+idList(h.bound)+" in let fb := "+fb+" in let o := "+optsTerm(rc)+" in "+
+			"(let ti := "+tableTerm(w.I, false)+" in let tc := "+tableTerm(w.C, false)+" in let b := "+idList(h.bound)+" in let fb := "+fb+" in let o := "+optsTerm(rc)+" in "+
 				vkit.App("olist_eqb", "(Covering ti tc b fb o)", idList(cov))+" && "+
 				vkit.App("olist_eqb", "(FastCovering b fb o)", idList(fast))+")")
 		wi := newRecorder(h, nil)
 		icov := rc.InteriorCovering(wi)
 		c.Check("InteriorCovering "+label,
-			"(let ti := "+tableTerm(wi.I, true)+" in let tc := "+tableTerm(wi.C, false)+" in let b := "+idList(h.bound)+" in let fb := "+fb+" in let o := "+optsTerm(rc)+" in "+
+			"(let ti := "+tableTerm(wi.I, false)+" in let tc := "+tableTerm(wi.C, false)+" in let b := "+idList(h.bound)+" in let fb := "+fb+" in let o := "+optsTerm(rc)+" in "+
 				vkit.App("olist_eqb", "(InteriorCovering ti tc b fb o)", idList(icov))+")")
 	}
 	// large bounds: the greedy merge of normalizeCovering and its "very large covering" branch
@@ -126,7 +126,7 @@ func synthetic(c *vkit.Collector, rng *vkit.Rng, budget int) {
 		c.Eval(label, true)
 		fb := fallbackTerm(c, bound, rc, label)
 		c.Check("FastCovering+Covering "+label,
-			"(let ti := "+tableTerm(w.I, true)+" in let tc := "+tableTerm(w.C, false)+" in let b := "+idList(bound)+" in let fb := "+fb+" in let o := "+optsTerm(rc)+" in "+
+			"(let ti := "+tableTerm(w.I, false)+" in let tc := "+tableTerm(w.C, false)+" in let b := "+idList(bound)+" in let fb := "+fb+" in let o := "+optsTerm(rc)+" in "+
 				vkit.App("olist_eqb", "(FastCovering b fb o)", idList(fast))+" && "+
 				vkit.App("olist_eqb", "(Covering ti tc b fb o)", idList(cov))+")")
 		// the bound is the region itself here, so both must cover every cell of it
